@@ -675,6 +675,79 @@ def rule_integer_side(repo, rule):
                 "representable step: PrivVal(3) < PrivValFxp(3.5) yields 0", "intside/cmp/%s" % mn)
 
 
+def rule_rescale_gadgets(repo, rule):
+    """A hand-written division by the scale 2^k: fresh witnesses q, r with the linear tie  q * 2^k + r = x.  The tie alone lets the
+    prover move multiples of 2^k between q and r; what pins q to floor(x / 2^k) is 0 <= r < 2^k - a range check on r of EXACTLY k
+    bits (one bit more admits r + 2^k with q - 1: the product comes out one unit too small)."""
+    from ..flatten import resolve_locals
+    from ..poly import poly_of, P
+    from .c16 import zero_asserted
+    K = P.sym("k")
+    n = 0
+    for mn in (FX, "pysnark.runtime"):
+        m = repo.modules.get(mn)
+        if m is None:
+            continue
+        for fi in m.functions.values():
+            if not isinstance(fi.node, ast.FunctionDef) or "resolution" not in norm(fi.node):
+                continue
+            wits = {a.targets[0].id: a for a in ast.walk(fi.node) if isinstance(a, ast.Assign) and len(a.targets) == 1 and isinstance(a.targets[0], ast.Name)
+                    and isinstance(a.value, ast.Call) and norm(a.value.func).split(".")[-1] == "PrivVal"}
+            if len(wits) < 2:
+                continue
+            for c in ast.walk(fi.node):
+                if not isinstance(c, ast.Call):
+                    continue
+                d = zero_asserted(c)
+                if d is None:
+                    continue
+                d = resolve_locals(fi.node, d, keep=set(wits))
+                env = {w: P.sym(w) for w in wits}
+                env.update({"1 << resolution": P.sym("S"), "2 ** resolution": P.sym("S"), "(1 << resolution)": P.sym("S")})
+                p = poly_of(d, env, strict=False)
+                if p is None:
+                    continue
+                for q in wits:
+                    for r in wits:
+                        if q == r:
+                            continue
+                        rest = p - (P.sym(q) * P.sym("S") + P.sym(r))
+                        rest2 = p + (P.sym(q) * P.sym("S") + P.sym(r))
+                        if not any(x_.symbols() & {q, r, "S"} == set() for x_ in (rest, rest2)):
+                            continue
+                        # r's range evidence
+                        n += 1
+                        widths = []
+                        for g in ast.walk(fi.node):
+                            if isinstance(g, ast.Call) and isinstance(g.func, ast.Attribute) and norm(g.func.value) == r \
+                                    and g.func.attr in ("assert_positive", "to_bits", "check_positive") and g.args:
+                                widths.append((g, resolve_locals(fi.node, g.args[0])))
+                        where = fi.loc(c)
+                        if not widths:
+                            rule.undecided(where, fi.fq, "%s * 2^k + %s tied to the operand" % (q, r), "no width-limited range check of the remainder found")
+                            continue
+                        for g, w in widths:
+                            wt = norm(w).replace(" ", "")
+                            if wt in ("resolution",):
+                                wp = K
+                            elif wt in ("(1<<resolution).bit_length()", "(2**resolution).bit_length()"):
+                                wp = K + 1
+                            elif wt in ("((1<<resolution)-1).bit_length()", "(2**resolution-1).bit_length()"):
+                                wp = K
+                            else:
+                                wp = poly_of(w, {"resolution": K}, strict=True)
+                            term = "%s = %s * 2^k + %s, remainder checked at %s bits" % ("x", q, r, norm(w))
+                            if wp is None:
+                                rule.undecided(fi.loc(g), fi.fq, term, "width not interpretable")
+                            elif wp == K:
+                                rule.ok(fi.loc(g), fi.fq, term, "0 <= r < 2^k: the quotient is the floor")
+                            else:
+                                rule.violation(fi.loc(g), fi.fq, term, "the remainder of a division by 2^k is range-checked at %s bits instead of k: "
+                                               "r + 2^k with q - 1 satisfies every constraint, so the rescaled value can be forged one unit "
+                                               "too small" % (wp,), "%s/rescale-width" % fi.qual)
+    return n
+
+
 def rule_floor_direction(repo, rule):
     """Division and multiplication of representations round DOWN (floor).  Floor does not commute with negation
     (-floor(x) = ceil(-x)), so inside the dividing / rescaling operators no result of a division may be negated, and no
@@ -818,7 +891,30 @@ def check(repo, rep, tier):
     config_read_at_call_time(repo, r3, FX, "resolution", "scaling")
     r6 = rep.rule("R-C14-6", "rounding is towards minus infinity: no negation is moved across a floor division", floor=5)
     rule_floor_direction(repo, r6)
+    r7 = rep.rule("R-C14-7", "hand-written rescaling gadgets bound the remainder by the scale (expected count 0 on the pinned tree)", floor=0)
+    rule_rescale_gadgets(repo, r7)
     r5 = rep.rule("R-C14-5", "fixed-point comparisons test the named relation between the two representations", floor=6)
     rule_fxp_comparisons(repo, r5)
     r4 = rep.rule("R-C14-4", "the integer-secret class rejects or defers fixed-point operands (no unscaled arithmetic on v*2^r)", floor=6)
     rule_integer_side(repo, r4)
+    # float operands on the integer side: once + / - promote an integer secret to fixed point for a float, the strict comparisons,
+    # which are written `(o - s - 1) >= 0`, reach fixed-point arithmetic with an INTEGER step: there `- 1` is 1.0, not one
+    # representation unit, so 3 < 3.5 comes out false.  They need a float arm of their own (or must refuse floats).
+    lcint = repo.cls("pysnark.runtime", "LinComb")
+
+    def _float_arm(f):
+        return [n_ for n_ in ast.walk(f.node) if isinstance(n_, ast.If) and "isinstance(" in norm(n_.test) and "float" in norm(n_.test)]
+    promotes = [mn_ for mn_ in ("__add__", "__radd__", "__sub__", "__rsub__") if mn_ in lcint.methods and any(
+        any(isinstance(x_, ast.Return) and x_.value is not None and norm(x_.value) != "NotImplemented" for s_ in a_.body for x_ in ast.walk(s_))
+        for a_ in _float_arm(lcint.methods[mn_]))]
+    for cmpn in ("__lt__", "__gt__"):
+        f_ = lcint.methods.get(cmpn)
+        if f_ is None:
+            continue
+        if promotes and not _float_arm(f_):
+            r4.violation(f_.loc(), f_.fq, "%s: %s" % (cmpn, norm([r_ for r_ in ast.walk(f_.node) if isinstance(r_, ast.Return) and r_.value is not None][-1].value)[:80]), "%s accepts float operands by "
+                         "promoting the integer secret to fixed point, and this strict comparison then subtracts the literal 1 from a "
+                         "fixed-point difference: the step is 1.0 instead of one representation unit (2^-r), so `x %s c` is wrong for a float "
+                         "c strictly between x and x +- 1" % (promotes[0], "<" if cmpn == "__lt__" else ">"), "intside/float-step/%s" % cmpn)
+        elif promotes:
+            r4.ok(f_.loc(), f_.fq, "%s has a float arm of its own" % cmpn)
